@@ -215,7 +215,12 @@ def allOK : List (Except Err Bool) → Except Err Bool
     integrals (`isLinear_true_iff` in Lemmas/LinearSum.lean) — the integrands are never added up
     across regions.  Inside one integrand the comparison is made on the WHOLE integrand after
     expansion (`RingEq.ringEq` normalises powers and products of sums), not summand by summand:
-    `(v+f)**2 - v**2 - f**2` is accepted. -/
+    `(v+f)**2 - v**2 - f**2` is accepted.
+    Numbers: the exchange format sends a sympy `Float` as its exact rational value (`num p q`,
+    harness/exprser.py), so the model decides the comparison in exact arithmetic.  The code
+    compares `(a - b).expand() == 0` OR `a.expand() == b.expand()`: with floats the first may leave
+    a rounding residue (`0.1 + 0.2 - 0.1 - 0.2`), the second compares two sides that were rounded
+    the same way; the model stands for their disjunction. -/
 def isLinear (d : Nat) (args : List E) (ints : List (String × E)) : Except Err Bool :=
   match allOK (ints.map (fun p => additive d args p.2)) with
   | .error x => .error x
